@@ -301,6 +301,32 @@ func init() {
 		}
 		b.WriteString("Definition c07_clone_fields_copied : list bool :=\n  [ " + strings.Join(crow, "\n  ; ") + " ].\n")
 		fmt.Fprintf(b, "Definition c07_clone_all_deep : bool := %v.\n", allDeep)
+		// store.remove resets its own store exactly when "len(s.peers()) <= 1" (raft peers,
+		// which still contain the node being removed), not from the meta-node list that the
+		// DeleteMetaNodeCommand has already shrunk
+		rm := p.funcDecl("remove", "store")
+		byPeers := false
+		ast.Inspect(rm, func(n ast.Node) bool {
+			is, ok := n.(*ast.IfStmt)
+			if !ok || !containsCall(is.Body, "reset") {
+				return true
+			}
+			if be, ok := is.Cond.(*ast.BinaryExpr); ok && be.Op == token.LEQ {
+				if lit, ok := be.Y.(*ast.BasicLit); ok && lit.Value == "1" {
+					if c, ok := be.X.(*ast.CallExpr); ok && len(c.Args) == 1 {
+						if id, ok := c.Fun.(*ast.Ident); ok && id.Name == "len" {
+							if c2, ok := c.Args[0].(*ast.CallExpr); ok {
+								if se, ok := c2.Fun.(*ast.SelectorExpr); ok && se.Sel.Name == "peers" {
+									byPeers = true
+								}
+							}
+						}
+					}
+				}
+			}
+			return true
+		})
+		fmt.Fprintf(b, "Definition c07_remove_resets_by_raft_peers : bool := %v.\n", byPeers)
 		sn := p.funcDecl("Snapshot", "storeFSM")
 		fmt.Fprintf(b, "Definition c07_snapshot_clones : bool := %v.\n", sn != nil && containsCall(sn, "Clone"))
 	})
